@@ -30,11 +30,11 @@ Definition once_only : variant := {| v_once := true; v_serial := false |}.
 Definition pre_fix : variant := {| v_once := false; v_serial := false |}.
 
 (** program counter of a teardown-capable thread *)
-Inductive pc := PIdle | PClosed | PHeld | PDone.
+Inductive pc := PIdle | PSend | PClosed | PHeld | PDone.
 
 Definition pc_eqb (a b : pc) : bool :=
   match a, b with
-  | PIdle, PIdle | PClosed, PClosed | PHeld, PHeld | PDone, PDone => true
+  | PIdle, PIdle | PSend, PSend | PClosed, PClosed | PHeld, PHeld | PDone, PDone => true
   | _, _ => false
   end.
 
@@ -55,11 +55,12 @@ Record st := {
   routes : list (N * nat);    (* one entry per learned route: (next hop peer, connection it arrived on) *)
   relays : list N;            (* one entry per transit stream: the peer involved *)
   cblog : list (N * nat);     (* disconnect callbacks, newest first: (peer, connection) *)
-  blocked : bool              (* a script asked for a registration while lifecycleMu was held *)
+  blocked : bool;             (* a script asked for a registration while lifecycleMu was held *)
+  closing : list nat          (* connections that Disconnect / DisconnectAll has unregistered and is about to Close *)
 }.
 
 Definition init : st :=
-  {| conns := []; reg := []; routes := []; relays := []; cblog := []; blocked := false |}.
+  {| conns := []; reg := []; routes := []; relays := []; cblog := []; blocked := false; closing := [] |}.
 
 Fixpoint lookup (p : N) (r : list (N * nat)) : option nat :=
   match r with
@@ -81,7 +82,7 @@ Fixpoint set_nth {A} (l : list A) (n : nat) (x : A) : list A :=
 
 Definition upd (s : st) (c : nat) (x : conn) : st :=
   {| conns := set_nth (conns s) c x; reg := reg s; routes := routes s; relays := relays s;
-     cblog := cblog s; blocked := blocked s |}.
+     cblog := cblog s; blocked := blocked s; closing := closing s |}.
 
 Definition th_pc (x : conn) (t : thread) : pc := match t with TKa => c_ka x | TRd => c_rd x end.
 
@@ -103,13 +104,6 @@ Definition conn_held (x : conn) : bool := pc_eqb (c_ka x) PHeld || pc_eqb (c_rd 
     bookkeeping and the end of its callback *)
 Definition lifecycle_held (s : st) : bool := existsb conn_held (conns s).
 
-(** DisconnectAll closes every registered connection *)
-Fixpoint close_all (cs : list nat) (l : list conn) : list conn :=
-  match cs with
-  | [] => l
-  | c :: cs' => close_all cs' (match nth_error l c with Some x => set_nth l c (close_conn x) | None => l end)
-  end.
-
 Inductive estep :=
 | EReg (p : N)                  (* a new connection to p finished its handshake: registerConnection *)
 | EKaFail (c : nat)             (* keepalive loop: timeout or send error -> conn.Close() *)
@@ -117,8 +111,11 @@ Inductive estep :=
 | ETdLock (c : nat) (t : thread)   (* handleDisconnect, section under Manager.mu *)
 | ETdNotify (c : nat) (t : thread) (* handleDisconnect, OnPeerDisconnect callback *)
 | EFrame (c : nat)              (* a route advertisement arrives on c *)
-| EDisconnect (p : N)           (* Manager.Disconnect *)
-| EDisconnectAll                (* Manager.DisconnectAll *)
+| EKaTick (c : nat)             (* keepalive loop: tick, enters conn.SendKeepalive(); the write may hang *)
+| EKaWake (c : nat) (fail : bool) (* the keepalive write returns (an error if the stream is closed or [fail]) *)
+| EUnregister (p : N)           (* Manager.Disconnect, section under Manager.mu: entry deleted, Close pending *)
+| EUnregisterAll                (* Manager.DisconnectAll, section under Manager.mu: map replaced, Closes pending *)
+| EClosePending (c : nat)       (* Disconnect / DisconnectAll close one of the connections they unregistered *)
 | ERelay (p : N).               (* a transit stream through p is set up *)
 
 Definition wipe_routes (p : N) (l : list (N * nat)) := filter (fun e => negb (N.eqb p (fst e))) l.
@@ -134,10 +131,10 @@ Definition step (v : variant) (s : st) (e : estep) : option st :=
       | Some _ =>
           (* keep the existing connection, close the new one; no loops are started *)
           Some {| conns := conns s ++ [{| c_peer := p; c_closed := true; c_accepted := false; c_rd := PDone; c_ka := PDone; c_handled := false |}];
-                  reg := reg s; routes := routes s; relays := relays s; cblog := cblog s; blocked := blocked s |}
+                  reg := reg s; routes := routes s; relays := relays s; cblog := cblog s; blocked := blocked s; closing := closing s |}
       | None =>
           Some {| conns := conns s ++ [{| c_peer := p; c_closed := false; c_accepted := true; c_rd := PIdle; c_ka := PIdle; c_handled := false |}];
-                  reg := (p, c) :: reg s; routes := routes s; relays := relays s; cblog := cblog s; blocked := blocked s |}
+                  reg := (p, c) :: reg s; routes := routes s; relays := relays s; cblog := cblog s; blocked := blocked s; closing := closing s |}
       end
   | EKaFail c =>
       match get s c with
@@ -165,7 +162,7 @@ Definition step (v : variant) (s : st) (e : estep) : option st :=
                        c_handled := (if v_once v then true else c_handled x) |} in
           let x2 := set_pc x1 t (if stale then PDone else PHeld) in
           Some {| conns := set_nth (conns s) c x2; reg := reg'; routes := routes s; relays := relays s;
-                  cblog := cblog s; blocked := blocked s |}
+                  cblog := cblog s; blocked := blocked s; closing := closing s |}
       | None => None
       end
   | ETdNotify c t =>
@@ -175,7 +172,7 @@ Definition step (v : variant) (s : st) (e : estep) : option st :=
           let p := c_peer x in
           Some {| conns := set_nth (conns s) c (set_pc x t PDone); reg := reg s;
                   routes := wipe_routes p (routes s); relays := wipe_relays p (relays s);
-                  cblog := (p, c) :: cblog s; blocked := blocked s |}
+                  cblog := (p, c) :: cblog s; blocked := blocked s; closing := closing s |}
       | None => None
       end
   | EFrame c =>
@@ -185,25 +182,44 @@ Definition step (v : variant) (s : st) (e : estep) : option st :=
           if c_closed x
           then Some (upd s c (set_pc x TRd PDone))   (* the loop notices conn.Done() and leaves silently *)
           else Some {| conns := conns s; reg := reg s; routes := (c_peer x, c) :: routes s; relays := relays s;
-                       cblog := cblog s; blocked := blocked s |}
+                       cblog := cblog s; blocked := blocked s; closing := closing s |}
       | None => None
       end
-  | EDisconnect p =>
+  | EKaTick c =>
+      match get s c with
+      | Some x => if pc_eqb (c_ka x) PIdle && negb (c_closed x)
+                  then Some (upd s c (set_pc x TKa PSend)) else None
+      | None => None
+      end
+  | EKaWake c fail =>
+      match get s c with
+      | Some x =>
+          if negb (pc_eqb (c_ka x) PSend) then None else
+          if fail || c_closed x
+          then Some (upd s c (set_pc (close_conn x) TKa PClosed))   (* conn.Close(); then handleDisconnect *)
+          else Some (upd s c (set_pc x TKa PIdle))                  (* timer.Reset, back to the select *)
+      | None => None
+      end
+  | EUnregister p =>
       match lookup p (reg s) with
-      | Some c =>
-          match get s c with
-          | Some x => Some {| conns := set_nth (conns s) c (close_conn x); reg := remove_peer p (reg s);
-                              routes := routes s; relays := relays s; cblog := cblog s; blocked := blocked s |}
-          | None => None
-          end
+      | Some c => Some {| conns := conns s; reg := remove_peer p (reg s); routes := routes s; relays := relays s;
+                          cblog := cblog s; blocked := blocked s; closing := closing s ++ [c] |}
       | None => None
       end
-  | EDisconnectAll =>
-      Some {| conns := close_all (map snd (reg s)) (conns s);
-              reg := []; routes := routes s; relays := relays s; cblog := cblog s; blocked := blocked s |}
+  | EUnregisterAll =>
+      Some {| conns := conns s; reg := []; routes := routes s; relays := relays s; cblog := cblog s;
+              blocked := blocked s; closing := closing s ++ map snd (reg s) |}
+  | EClosePending c =>
+      if negb (existsb (Nat.eqb c) (closing s)) then None else
+      match get s c with
+      | Some x => Some {| conns := set_nth (conns s) c (close_conn x); reg := reg s; routes := routes s; relays := relays s;
+                          cblog := cblog s; blocked := blocked s;
+                          closing := filter (fun d => negb (Nat.eqb c d)) (closing s) |}
+      | None => None
+      end
   | ERelay p =>
       Some {| conns := conns s; reg := reg s; routes := routes s; relays := p :: relays s;
-              cblog := cblog s; blocked := blocked s |}
+              cblog := cblog s; blocked := blocked s; closing := closing s |}
   end.
 
 (** [run v s tr]: all steps must be enabled *)
@@ -225,13 +241,18 @@ Inductive op :=
 | Frame (c : nat)
 | Disconnect (p : N)
 | DisconnectAll
-| Relay (p : N).
+| Relay (p : N)
+| KaHang (c : nat)                      (* the keepalive write of c hangs *)
+| KaWake (c : nat) (fail hold : bool)   (* ... and returns *)
+| Storm (p : N) (n : nat)               (* n registrations for p race; the winner is numbered first *)
+| DABegin                               (* DisconnectAll has replaced the map, its Close calls are still to come *)
+| DAClose (c : nat).                    (* ... one of them happens *)
 
 Definition try (v : variant) (s : st) (e : estep) : st :=
   match step v s e with Some s' => s' | None => s end.
 
 Definition set_blocked (s : st) : st :=
-  {| conns := conns s; reg := reg s; routes := routes s; relays := relays s; cblog := cblog s; blocked := true |}.
+  {| conns := conns s; reg := reg s; routes := routes s; relays := relays s; cblog := cblog s; blocked := true; closing := closing s |}.
 
 Definition held_thread (s : st) (c : nat) : option thread :=
   match get s c with
@@ -239,13 +260,24 @@ Definition held_thread (s : st) (c : nat) : option thread :=
   | None => None
   end.
 
+Fixpoint close_pending (v : variant) (cs : list nat) (s : st) : st :=
+  match cs with
+  | [] => s
+  | c :: cs' => close_pending v cs' (try v s (EClosePending c))
+  end.
+
+Definition connect1 (v : variant) (p : N) (s : st) : st :=
+  match step v s (EReg p) with
+  | Some s' => s'
+  | None => set_blocked s   (* the harness observed a registration that the model says must wait *)
+  end.
+
+Fixpoint connect_n (v : variant) (p : N) (n : nat) (s : st) : st :=
+  match n with O => s | S n' => connect_n v p n' (connect1 v p s) end.
+
 Definition apply (v : variant) (s : st) (o : op) : st :=
   match o with
-  | Connect p =>
-      match step v s (EReg p) with
-      | Some s' => s'
-      | None => set_blocked s   (* the harness observed a registration that the model says must wait *)
-      end
+  | Connect p => connect1 v p s
   | KaFail c hold =>
       match step v s (EKaFail c) with
       | Some s1 => let s2 := try v s1 (ETdLock c TKa) in if hold then s2 else try v s2 (ETdNotify c TKa)
@@ -262,9 +294,22 @@ Definition apply (v : variant) (s : st) (o : op) : st :=
       | None => s
       end
   | Frame c => try v s (EFrame c)
-  | Disconnect p => try v s (EDisconnect p)
-  | DisconnectAll => try v s EDisconnectAll
+  | Disconnect p =>
+      match lookup p (reg s) with
+      | Some c => try v (try v s (EUnregister p)) (EClosePending c)
+      | None => s
+      end
+  | DisconnectAll => close_pending v (map snd (reg s)) (try v s EUnregisterAll)
   | Relay p => try v s (ERelay p)
+  | KaHang c => try v s (EKaTick c)
+  | KaWake c fail hold =>
+      match step v s (EKaWake c fail) with
+      | Some s1 => let s2 := try v s1 (ETdLock c TKa) in if hold then s2 else try v s2 (ETdNotify c TKa)
+      | None => s
+      end
+  | Storm p n => connect_n v p n s
+  | DABegin => try v s EUnregisterAll
+  | DAClose c => try v s (EClosePending c)
   end.
 
 (* ------------------------------------------------------------------ *)
